@@ -136,10 +136,17 @@ def cmdEnsSoft : P String := do
   let Ps ← many (mat float e k) n
   pure (showMat (ensembleSoft k Ps))
 
+/-- `costperm <k> cls(k ints, declared order) C(k*k, declared order)` : `cost_matrix_`. -/
+def cmdCostPerm : P String := do
+  let k ← nat
+  let cls ← many int k
+  let C ← mat float k k
+  pure (showMat (permuteCost cls C))
+
 def handlers : List (String × P String) :=
   [ ("normfreq", cmdNormFreq), ("pwcproba", cmdPwcProba), ("pwcproba_nn", cmdPwcProbaNN),
     ("mmcproba", cmdMmcProba), ("predict", cmdPredict), ("decide", cmdDecide),
     ("skproba", cmdSkProba), ("skpredict", cmdSkPredict), ("enshard", cmdEnsHard),
-    ("enssoft", cmdEnsSoft) ]
+    ("enssoft", cmdEnsSoft), ("costperm", cmdCostPerm) ]
 
 end Ska.Drv.Classifier
